@@ -736,13 +736,23 @@ static const char *lh_key(int i)
 	return keys[i % 4096];
 }
 
+/* entries handed to the table's free function while a resize / insert is under way: the caller's table owns them, none
+ * may be released by an operation that only re-houses them (or fails to) */
+static int lh_freed_in_window;
+static void lh_counting_free(struct lh_entry *e)
+{
+	(void)e;
+	lh_freed_in_window++;
+}
+
 /* kind 'r': lh_table_resize(t, arg) on a table of `size` slots holding n entries; 'i': insert one more */
 static int wl_lh(struct rep *r, char kind, int size, int n, int arg, long k1, long k2)
 {
-	struct lh_table *t = lh_kchar_table_new(size, lh_noop_free);
+	struct lh_table *t = lh_kchar_table_new(size, lh_counting_free);
 	for (int i = 0; i < n; i++)
 		lh_table_insert(t, lh_key(i), (void *)(intptr_t)(i + 1));
 	int size0 = t->size, count0 = t->count;
+	lh_freed_in_window = 0;
 	win_open(k1, k2, 1);
 	int rc = kind == 'r' ? lh_table_resize(t, arg) : lh_table_insert(t, lh_key(n), (void *)(intptr_t)(n + 1));
 	r->err = errno;
@@ -750,7 +760,7 @@ static int wl_lh(struct rep *r, char kind, int size, int n, int arg, long k1, lo
 	r->traced = 1;
 	snprintf(r->res, sizeof r->res, "rc=%d count=%d size=%d", rc, t->count, t->size);
 	/* every entry still there, in order */
-	int good = 1, i = 0;
+	int good = lh_freed_in_window == 0, i = 0;
 	struct lh_entry *e;
 	for (e = t->head; e; e = e->next, i++)
 		if (strcmp((const char *)e->k, lh_key(i)) != 0 || (intptr_t)e->v != i + 1)
